@@ -2,7 +2,7 @@
 import numpy as np
 from ..runner import Acc, HarnessError
 from ..refmodel import Fmt, MODES, quantize, quantize_code, add_fmt, mul_fmt, min_frac_bits, min_word, dy
-from ..common import Fxp, fx, codes, flags, fmt_of, reset_class_state, build, AGED
+from ..common import Fxp, fx, codes, flags, fmt_of, reset_class_state, build, AGED, ENVS
 
 ID = 'C08'
 RULE = ('cases = (operand format pair, op, imposed-format mechanism [sizing policy | out | out_like | constant with op_input_size and '
@@ -14,6 +14,7 @@ ASSUMPTIONS = ['imposed format of a sizing policy: signed = any operand signed; 
                'domain: operands with n_int >= 0, no scale/bias, result n_word >= 1, no unsigned target with signed operands']
 
 OPS = ('+', '-', '*')
+C08_ENVS = tuple(e for e in ENVS if e != 'cfg:op_method=repr')      # the method is passed explicitly here
 SIZINGS = ('same', 'largest', 'smallest')
 
 
@@ -78,7 +79,7 @@ def compare(acc, case, z, fz, gov, exps, part, sig):
                       % (sig, i, got[i] if i < len(got) else None, exp[i], exps[i][0], exps[i][1], gov[0], gov[1], fz.dtype),
                       dict(part=part, **case.get('_sig', {})))
         return
-    ef = (any(e[1] for e in q), any(e[2] for e in q), any(e[3] for e in q))
+    ef = (any(e[1] for e in q), any(e[2] for e in q), any(e[3] for e in q) or case.get('by') == 'env:flagged')   # operands' inaccuracy travels
     if flags(z) != ef:
         acc.violation('flags', case, '%s: flags %s expected %s' % (sig, flags(z), ef), dict(part=part, **case.get('_sig', {})))
 
@@ -342,6 +343,9 @@ def run_shard(sh):
                         for mode in MODES:
                             judge_sizing(acc, fxm, fym, xs, ys, op, policy, method, mode, 'P1')
                         judge_sizing(acc, fxm, fym, xs, ys, op, policy, method, ('around', 'saturate'), 'P1', 'value')
+                        env = C08_ENVS[(sh['i'] + 2 * g.index(fym) + OPS.index(op) + SIZINGS.index(policy)) % len(C08_ENVS)]
+                        for e_ in (C08_ENVS if max(fxm.n_word, fym.n_word) <= 2 else (env,)):
+                            judge_sizing(acc, fxm, fym, xs, ys, op, policy, method, ('floor', 'wrap') if method == 'raw' else ('ceil', 'saturate'), 'P1', 'env:' + e_)
                         how = AGED[(sh['i'] + g.index(fym) + OPS.index(op) + SIZINGS.index(policy)) % len(AGED)]
                         judge_sizing(acc, fxm, fym, xs, ys, op, policy, method, ('floor', 'wrap') if method == 'raw' else ('around', 'saturate'), 'P1', how)
     elif part == 'P2':
